@@ -70,13 +70,22 @@ func judge(spec *clientSpec, pol *policy, d *dlog) ([]finding, jstats) {
 	exempt := false // the running attempt was chosen by the application's AuthCallback
 	successAt := -1
 	nreq := 0
-	queries := map[string]*queryState{}  // by key blob: the most recent query
+	queries := map[string]*queryState{}   // by key blob: the most recent query
 	rejectedSHA2Cert := map[string]bool{} // key blob -> an RSA SHA-2 certificate algorithm offer was not accepted
 	lastTermFailurePartial := false
 	retryRun := 0 // consecutive non-partial terminal failures of the method of lastReq
 	attempts := 0 // method-terminating FAILUREs (full or partial) for methods other than none
 	callbacks := 0
 	disconnectSent := false
+	// RSA certificates whose SHA-2 offer was not accepted and for which the
+	// documented ssh-rsa-cert-v01 retry is still outstanding (key blob -> event)
+	compatDue := map[string]int{}
+	checkCompatDue := func(at int) {
+		for b, ev := range compatDue {
+			add("rsa-cert-sha1-compat-retry-missing", at, map[string]any{"key": blobID([]byte(b)), "rejected_at_event": ev})
+		}
+		clear(compatDue)
+	}
 
 	for i, e := range d.ev {
 		switch e.Kind {
@@ -93,8 +102,10 @@ func judge(spec *clientSpec, pol *policy, d *dlog) ([]finding, jstats) {
 			switch e.SType {
 			case "success":
 				successAt = i
+				clear(compatDue)
 			case "disconnect":
 				disconnectSent = true
+				clear(compatDue)
 			case "failure":
 				listAny, haveList = e.Methods, true
 				isQuery := lastReq != nil && lastReq.Method == "publickey" && !lastReq.HasSig
@@ -106,6 +117,9 @@ func judge(spec *clientSpec, pol *policy, d *dlog) ([]finding, jstats) {
 						}
 						if isSHA2RSACert(lastReq.Algo) {
 							rejectedSHA2Cert[string(lastReq.KeyBlob)] = true
+							if sg := spec.signerByBlob(lastReq.KeyBlob); sg != nil && cauth.RSACertCompat(sg.model, lastReq.Algo) {
+								compatDue[string(lastReq.KeyBlob)] = i
+							}
 						}
 						st["query_rejected"]++
 						if !slices.Contains(e.Methods, "publickey") {
@@ -138,6 +152,9 @@ func judge(spec *clientSpec, pol *policy, d *dlog) ([]finding, jstats) {
 					matches := string(e.PKBlob) == string(lastReq.KeyBlob) && e.PKAlgo == lastReq.Algo
 					if !matches && isSHA2RSACert(lastReq.Algo) {
 						rejectedSHA2Cert[string(lastReq.KeyBlob)] = true
+						if sg := spec.signerByBlob(lastReq.KeyBlob); sg != nil && cauth.RSACertCompat(sg.model, lastReq.Algo) {
+							compatDue[string(lastReq.KeyBlob)] = i
+						}
 					}
 					switch {
 					case string(e.PKBlob) != string(lastReq.KeyBlob):
@@ -183,6 +200,18 @@ func judge(spec *clientSpec, pol *policy, d *dlog) ([]finding, jstats) {
 			}
 			st["requests"]++
 			st["requests:"+m.Method]++
+			// "We retry using the compat algorithm after all signers have been tried
+			// normally": the retry belongs to the same run over the signers, so it
+			// must come before the client turns to another method. A signed request
+			// may end the run early, so it cancels the expectation.
+			switch {
+			case m.Method != "publickey":
+				checkCompatDue(i)
+			case m.HasSig:
+				clear(compatDue)
+			case m.Algo == cauth.CertOf("ssh-rsa"):
+				delete(compatDue, string(m.KeyBlob))
+			}
 
 			// (1) only methods the server lists, after the initial none
 			switch {
@@ -194,6 +223,12 @@ func judge(spec *clientSpec, pol *policy, d *dlog) ([]finding, jstats) {
 				inList := haveList && (slices.Contains(listTerm, m.Method) || slices.Contains(listAny, m.Method))
 				if inList {
 					st["method_in_list_checks"]++
+					if !slices.Contains(listAny, m.Method) {
+						// listed by the last method-terminating FAILURE but dropped by the
+						// FAILURE that answered a later key query: the text does not say
+						// which list counts; accepted, counted
+						st["method_listed_only_before_query_failure"]++
+					}
 					if lastTermFailurePartial {
 						st["method_in_list_checks_after_partial"]++
 					}
@@ -258,6 +293,13 @@ func judge(spec *clientSpec, pol *policy, d *dlog) ([]finding, jstats) {
 			} else {
 				st["pubkey_algorithm_checks"]++
 				st["pubkey_algorithm_rule:"+ch.Rule]++
+				if sg.key.isRSA() {
+					ext := "absent"
+					if d.sigAlgs != nil {
+						ext = *d.sigAlgs
+					}
+					st["D|rsa choice ext="+ext+" signer="+sg.class()+" -> "+m.Algo]++
+				}
 				if compat {
 					st["rsa_cert_sha1_compat_offer"]++
 				}
@@ -309,6 +351,10 @@ func judge(spec *clientSpec, pol *policy, d *dlog) ([]finding, jstats) {
 				st["signatures_verified:"+format]++
 			}
 		}
+	}
+
+	if !d.clientOK && !disconnectSent {
+		checkCompatDue(len(d.ev))
 	}
 
 	// (5) success <=> the server said SUCCESS
